@@ -145,3 +145,42 @@ Fixpoint last_assign (c : N) (l : list (N * width)) : option width :=
 (* type0.go:cidWidth and t0Font.Codes: explicit width, else DW *)
 Definition cid_width (l : list (N * width)) (dw : width) (c : N) : width :=
   match last_assign c l with Some w => w | None => dw end.
+
+(* ---------------- from an arbitrary CID -> width map to the /W array -----------------
+   The embedders collect the widths in a Go map and encodeCompositeWidths iterates over
+   slices.Sorted(maps.Keys(widthMap)).  [m] lists the entries of the map in any order. *)
+Fixpoint insert_pair (p : N * width) (l : list (N * width)) : list (N * width) :=
+  match l with
+  | [] => [p]
+  | q :: r => if fst p <? fst q then p :: l else q :: insert_pair p r
+  end.
+
+Fixpoint sort_pairs (m : list (N * width)) : list (N * width) :=
+  match m with
+  | [] => []
+  | p :: r => insert_pair p (sort_pairs r)
+  end.
+
+Fixpoint assoc_w (c : N) (m : list (N * width)) : option width :=
+  match m with
+  | [] => None
+  | (c', w) :: r => if c =? c' then Some w else assoc_w c r
+  end.
+
+(* the /W array written for the map, and the width a reader obtains for a CID *)
+Definition w_of_map (m : list (N * width)) : list witem := encode_w (sort_pairs m).
+
+Definition read_cid_width (its : list witem) (dw : width) (c : N) : option width :=
+  match decode_w its with
+  | Some l => Some (cid_width l dw c)
+  | None => None
+  end.
+
+(* ---------------- the /Widths table of a simple font, from the encoder state ---------- *)
+(* dict.Width: the width of every used code, 0 elsewhere; enc(code) != "" for the used codes *)
+Definition dict_width (s : st) (c : N) : width :=
+  match find_info c (s_info s) with Some i => ci_w i | None => 0%Z end.
+
+Definition code_used (s : st) (c : N) : bool :=
+  match find_info c (s_info s) with Some _ => true | None => false end.
+
